@@ -19,7 +19,7 @@ if [ -n "$BINS" ]; then
   rc=${PIPESTATUS[0]}
   if [ "$rc" -ne 0 ]; then echo "setup: release build failed"; exit 1; fi
 fi
-for id in c01 c02 c03 c05; do
+for id in c01 c02 c03 c05 c06 c07 c09 c10 c11 c13 c16; do
   if jq -e --arg id "$id" '.checks[] | select((.property_id|ascii_downcase)==$id)' "$ROOT/MANIFEST.json" >/dev/null 2>&1; then
     cargo build --offline --profile devopt --bin $id 2>&1 | tail -1
   fi
